@@ -423,27 +423,35 @@ void ExecImpl::op_pop_tracer(const Op&) {
   rtracers.pop_back();
 }
 
-void ExecImpl::op_set_reporter(const Op&) {
-  int prev = M.reporter_gen;
-  M.reporter_gen++;
+void ExecImpl::op_set_reporter(const Op& op) {
+  const int prev = M.reporter_gen, prev_ok = M.ok_gen;
+  const bool both = (op.a[0] & 1) == 0;   // two-argument overload replaces both, the one-argument overload leaves the OK reporter alone
+  const int gen = std::max(M.reporter_gen, M.ok_gen) + 1;
+  M.reporter_gen = gen;
+  if (both) M.ok_gen = gen;
   ++st.f_reporter_swap;
   nontriv("C16");
   if (shadow) return;
-  int gen = M.reporter_gen;
-  auto old = trompeloeil::set_reporter(
-      [gen](trompeloeil::severity s, char const* file, unsigned long line, std::string const& msg) {
-        bool fatal = s == trompeloeil::severity::fatal;
-        if (g_cur) g_cur->cur_obs().reports.push_back(RawReport{gen, fatal, file ? file : "", line, msg});
-        if (fatal) throw fatal_report{};
-      },
-      [gen](char const* msg) { if (g_cur) g_cur->cur_obs().oks.push_back(RawOk{gen, msg ? msg : ""}); });
-  // C16: what comes back is the pair that was installed before
+  auto rf = [gen](trompeloeil::severity s, char const* file, unsigned long line, std::string const& msg) {
+    bool fatal = s == trompeloeil::severity::fatal;
+    if (g_cur) g_cur->cur_obs().reports.push_back(RawReport{gen, fatal, file ? file : "", line, msg});
+    if (fatal) throw fatal_report{};
+  };
+  auto of = [gen](char const* msg) { if (g_cur) g_cur->cur_obs().oks.push_back(RawOk{gen, msg ? msg : ""}); };
+  // C16: what comes back is what was installed before
   Obs o; obs_stack.push_back(&o);
-  if (old.first) old.first(trompeloeil::severity::nonfatal, "probe", 1, "probe");
-  if (old.second) old.second("probe");
+  if (both) {
+    auto old = trompeloeil::set_reporter(rf, of);
+    if (old.first) old.first(trompeloeil::severity::nonfatal, "probe", 1, "probe");
+    if (old.second) old.second("probe");
+  } else {
+    auto old = trompeloeil::set_reporter(rf);
+    if (old) old(trompeloeil::severity::nonfatal, "probe", 1, "probe");
+  }
   obs_stack.pop_back();
-  if (o.reports.size() != 1 || o.reports[0].gen != prev || o.oks.size() != 1 || o.oks[0].gen != prev)
-    fail("C16", "set_reporter_returns_previous", "set_reporter did not return the previously installed reporter pair (generation " + std::to_string(prev) + ")");
+  bool ok = o.reports.size() == 1 && o.reports[0].gen == prev;
+  if (both) ok = ok && o.oks.size() == 1 && o.oks[0].gen == prev_ok; else ok = ok && o.oks.empty();
+  if (!ok) fail("C16", "set_reporter_returns_previous", "set_reporter did not return the previously installed reporter(s) (violation reporter generation " + std::to_string(prev) + ", OK reporter generation " + std::to_string(prev_ok) + ")");
 }
 
 // ---------------- end of run ----------------
